@@ -670,6 +670,8 @@ struct SockWorld {
     pending: std::collections::VecDeque<usize>,
     file: i32,                 // the descriptor that is passed around
     file_ino: u64,
+    dgram_tx: i32,             // datagram sender connected to a receiver nobody reads (its queue fills up)
+    dgram_rx: i32,
 }
 
 fn ino_of(fd: i32) -> u64 {
@@ -701,18 +703,31 @@ impl SockWorld {
             let c1 = libc::socket(libc::AF_UNIX, libc::SOCK_STREAM | libc::SOCK_CLOEXEC, 0);
             let c2 = libc::socket(libc::AF_UNIX, libc::SOCK_STREAM | libc::SOCK_CLOEXEC, 0);
             let file = libc::open(cstr(&format!("{dir}/passed.txt")).as_ptr(), libc::O_RDONLY | libc::O_CLOEXEC);
-            SockWorld { path, listener, client: [-1, c1, c2], server_side: [-1; 3], pending: Default::default(), file, file_ino: ino_of(file) }
+            let dgram_rx = libc::socket(libc::AF_UNIX, libc::SOCK_DGRAM | libc::SOCK_CLOEXEC, 0);
+            let dpath = format!("{path}.d");
+            let _ = std::fs::remove_file(&dpath);
+            let mut da: libc::sockaddr_un = std::mem::zeroed();
+            da.sun_family = libc::AF_UNIX as u16;
+            for (i, b) in dpath.bytes().enumerate() {
+                da.sun_path[i] = b as libc::c_char;
+            }
+            let dlen = (2 + dpath.len() + 1) as u32;
+            assert_eq!(0, libc::bind(dgram_rx, std::ptr::addr_of!(da).cast(), dlen));
+            let dgram_tx = libc::socket(libc::AF_UNIX, libc::SOCK_DGRAM | libc::SOCK_CLOEXEC, 0);
+            assert_eq!(0, libc::connect(dgram_tx, std::ptr::addr_of!(da).cast(), dlen));
+            SockWorld { path, listener, client: [-1, c1, c2], server_side: [-1; 3], pending: Default::default(), file, file_ino: ino_of(file), dgram_tx, dgram_rx }
         }
     }
     fn close_all(&mut self) {
         unsafe {
-            for fd in [self.listener, self.client[1], self.client[2], self.server_side[1], self.server_side[2], self.file] {
+            for fd in [self.listener, self.client[1], self.client[2], self.server_side[1], self.server_side[2], self.file, self.dgram_tx, self.dgram_rx] {
                 if fd >= 0 {
                     libc::close(fd);
                 }
             }
         }
         let _ = std::fs::remove_file(&self.path);
+        let _ = std::fs::remove_file(format!("{}.d", self.path));
     }
     /// control buffer after a recvmsg -> (number of descriptors received, all refer to the passed file); closes them
     fn received_fds(&self, ctrl: &[u8], controllen: usize) -> (usize, bool) {
@@ -755,7 +770,7 @@ fn sock_ring(ring: &mut IoUring, w: &mut SockWorld, step: &Value, u: u64, lost_i
     let arg = rusl::platform::SocketAddressUnix::try_from_unix(&upath).unwrap();
     let mut peer = [0u8; 112];
     let mut peer_len: u64 = 110;
-    let data = &SDATA[..n.min(SDATA.len()).max(if kind == "sendfd" { 1 } else { 0 })];
+    let data = &SDATA[..n.min(SDATA.len()).max(if kind == "sendfd" || kind == "dsend" { 1 } else { 0 })];
     let ios = [rusl::platform::IoSlice::new(data)];
     let fds = [Fd::try_new(w.file).unwrap()];
     let guard = rusl::platform::MsgHdrBorrow::create_send(None, &ios, if kind == "sendfd" { Some(rusl::platform::ControlMessageSend::ScmRights(&fds)) } else { None });
@@ -774,6 +789,8 @@ fn sock_ring(ring: &mut IoUring, w: &mut SockWorld, step: &Value, u: u64, lost_i
             "accept" => IoUringSubmissionQueueEntry::new_accept_unix(Fd::try_new(w.listener).unwrap(), peer.as_mut_ptr().cast(), &mut peer_len,
                 if u % 2 == 0 { SocketFlags::SOCK_CLOEXEC } else { SocketFlags::SOCK_NONBLOCK }, u, fl),
             "send" | "sendfd" => IoUringSubmissionQueueEntry::new_sendmsg(Fd::try_new(w.client[c]).unwrap(), &guard, 0, u, fl),
+            // a send flag with an observable effect: MSG_DONTWAIT on a datagram socket whose receiver's queue is full
+            "dsend" => IoUringSubmissionQueueEntry::new_sendmsg(Fd::try_new(w.dgram_tx).unwrap(), &guard, libc::MSG_DONTWAIT, u, fl),
             "recv" => IoUringSubmissionQueueEntry::new_recvmsg(Fd::try_new(w.server_side[c]).unwrap(), std::ptr::addr_of_mut!(rhdr).cast(), 0, u, fl),
             "peek" => IoUringSubmissionQueueEntry::new_recvmsg(Fd::try_new(w.server_side[c]).unwrap(), std::ptr::addr_of_mut!(rhdr).cast(), libc::MSG_PEEK, u, fl),
             _ => panic!("unknown sock step {kind}"),
@@ -870,6 +887,13 @@ fn sock_direct(w: &mut SockWorld, step: &Value, u: u64) -> (i64, Value) {
                     (r, Value::Null)
                 }
             }
+            "dsend" => {
+                let mut iov = [libc::iovec { iov_base: SDATA.as_ptr().cast_mut().cast(), iov_len: 1 }];
+                let mut hdr: libc::msghdr = std::mem::zeroed();
+                hdr.msg_iov = iov.as_mut_ptr();
+                hdr.msg_iovlen = 1;
+                (ret(libc::sendmsg(w.dgram_tx, &hdr, libc::MSG_DONTWAIT | libc::MSG_NOSIGNAL) as i64), Value::Null)
+            }
             "send" | "sendfd" => {
                 let data = &SDATA[..n.min(SDATA.len()).max(if kind == "sendfd" { 1 } else { 0 })];
                 let mut iov = [libc::iovec { iov_base: data.as_ptr().cast_mut().cast(), iov_len: data.len() }];
@@ -935,7 +959,7 @@ fn run_sock(scripts: &str, root: &str, entries: u32, flagbits: u32, out: &mut Ou
             let (cqes, pa, got_slot, to_submit, enter, panicked) = sock_ring(&mut ring, &mut a, step, u, &mut lost);
             let (rb, pb) = sock_direct(&mut b, step, u);
             let op = match step[0].as_str().unwrap() {
-                "send" | "sendfd" => "sendmsg",
+                "send" | "sendfd" | "dsend" => "sendmsg",
                 "recv" | "peek" => "recvmsg",
                 x => x,
             };
